@@ -5,6 +5,7 @@ From PV Require Export Model.LocalJobX.
 From PV Require Export Model.ComponentsX Model.DetectorX.
 From PV Require Export Model.ComponentsX Model.CodecX.
 From PV Require Export Model.PayloadX.
+From PV Require Export Model.JobGroupX.
 
 Definition dispatch (f : Z) (x : sx) : sx :=
   match f with
@@ -21,5 +22,6 @@ Definition dispatch (f : Z) (x : sx) : sx :=
   | 804 => x_detection_type x | 805 => x_check_heralds x | 806 => x_simulate x | 807 => x_closed x
   | 1500 => x_sf x | 1501 => x_codec x
   | 1600 => x_scenario x | 1601 => x_handle_params x
+  | 1900 => x_jobgroup_run x
   | _ => L []
   end%Z.
